@@ -133,6 +133,16 @@ func runC35(c *Ctx) {
 		}
 		c.Report(fn, "UnmarshalText parses prohibit, super and the 'o' run (k 'o' = k+1)", fn.Pos(), len(seen) == 3, fmt.Sprintf("%d forms", len(seen)))
 		c.MP(fn, "parsing succeeds only if a value was stored", c.SuccessReturns(fn), 1, GStored("p"))
+		// every printed permission parses: the only texts refused are the empty one and those that are
+		// not a run of 'o' (any further refusal cuts printable values out of the round trip)
+		var errs []ssa.Instruction
+		for _, r := range Returns(fn) {
+			if len(r.Results) == 1 && c.D(RetVal(r, 0)) != "nil" {
+				errs = append(errs, r)
+			}
+		}
+		c.MP(fn, "a text is refused only if it is empty or not a run of 'o'", errs, 1,
+			GCmp("len(b)", "<", "1"), GFalse("launch.regexpACLPermString.MatchString(b)"))
 	}
 	if pat, ok := c.globalStringInit("launch", "regexpACLPermString"); ok {
 		c.Report(nil, "the 'o' run pattern is anchored on both sides", 0, pat == "^o+$", pat)
